@@ -257,6 +257,42 @@ def run(tier, seed):
   rep.disagreements += len(bad)
   for i in bad[:3]:
     broke = ((broke or '') + ' correspondence StudyConfig.trial_parameters vs model on %r;' % (objs[i],))
+  # ---- a study deleted and re-created under the same name with OTHER declared types: the client presents what the study
+  # declares now (one process, one server; any client-side memory of the old study must not leak)
+  try:
+    from vizier._src.service import clients as _clients, vizier_client as _vc, vizier_service as _vsvc, study_pb2 as _spb, vizier_service_pb2 as _vs
+    serv_ = _vsvc.VizierServicer(database_url=None)
+    def declare(kind):
+      p_ = vz.ProblemStatement()
+      if kind == 'typed':
+        p_.search_space.root.add_bool_param('flag')
+        p_.search_space.root.add_discrete_param('width', [1, 2, 3])
+      else:
+        p_.search_space.root.add_categorical_param('flag', ['True', 'False'])
+        p_.search_space.root.add_float_param('width', 0.0, 5.0)
+      p_.metric_information.append(vz.MetricInformation(name='m1', goal=vz.ObjectiveMetricGoal.MAXIMIZE))
+      sc_ = svz.StudyConfig.from_problem(p_)
+      sc_.algorithm = 'RANDOM_SEARCH'
+      return sc_
+    expect = {'typed': {'flag': True, 'width': 2}, 'plain': {'flag': 'True', 'width': 2.0}}
+    order = ['typed', 'plain', 'typed'] if r.random() < 0.5 else ['plain', 'typed', 'plain']
+    for kind in order:
+      st_ = serv_.CreateStudy(_vs.CreateStudyRequest(parent='owners/o9', study=_spb.Study(display_name='same_name', study_spec=declare(kind).to_proto())))
+      study_ = _clients.Study(_vc.VizierClient(st_.name, 'w0', serv_))
+      tr_ = study_.add_trial(vz.Trial(parameters={'flag': 'True', 'width': 2.0}))
+      got_ = dict(tr_.parameters)
+      got2_ = dict(study_.get_trial(tr_.id).parameters)
+      rep.case({'recreated_study_declares': kind, 'presented': repr(got_)}, True)
+      rep.count('recreated_study_' + kind)
+      for g_ in (got_, got2_):
+        if set(g_) != set(expect[kind]) or any(not same_typed(expect[kind][k_], g_[k_]) for k_ in expect[kind]):
+          viol('a study re-created under the same name with other declared types: parameters are presented in the OLD types',
+               {'declared_now': kind, 'presented': repr(g_), 'expected': repr(expect[kind]), 'history': order})
+          break
+      study_.delete()
+  except ImportError:
+    pass
+
   # ---- one child declared once under SEVERAL parent values (factory(children=...) and the wire form of such a condition)
   for it in range(N // 6):
     pk = r.choice(['cat', 'disc', 'int'])
